@@ -307,13 +307,14 @@ func (w *World) checkCloseOracles(v *Node) {
 				if tf.F.More() && !w.requestComplete(l, inDir, tf) {
 					continue // the request itself never arrived completely
 				}
-				end := int64(0)
-				for _, e := range []int64{myClose, otherClose, l.CutEv} {
-					if e != 0 && (end == 0 || e < end) {
-						end = e
+				endAt := time.Duration(-1)
+				for i, e := range []int64{myClose, otherClose, l.CutEv} {
+					at := []time.Duration{l.CloseAt[side], l.CloseAt[1-side], l.CutAt}[i]
+					if e != 0 && (endAt < 0 || at < endAt) {
+						endAt = at
 					}
 				}
-				if end != 0 && w.eventTime(end) < rec.Deadline+rec.StallIn {
+				if endAt >= 0 && endAt < rec.Deadline+rec.StallIn {
 					w.probe("C07.unanswered-request-in-teardown")
 					continue
 				}
